@@ -230,8 +230,14 @@ func runUnits(sh *Shared, spec *PropSpec, units []Unit, solverKind string, timeo
 					stack = append(stack, workItem{unit: it.unit, prefix: p})
 				}
 				recordPath(r, m, res)
-				if len(res.Failures) > 0 && firstFailure.IsZero() {
-					firstFailure = time.Now()
+				if firstFailure.IsZero() {
+					for _, f := range res.Failures {
+						// candidates of a listed known finding do not start the grace period
+						if !knownFingerprints[fingerprint(spec.ID, f)] {
+							firstFailure = time.Now()
+							break
+						}
+					}
 				}
 				cond.Broadcast()
 				mu.Unlock()
@@ -257,6 +263,9 @@ const cexGrace = 150 * time.Second
 
 // cutAfterCex: work items dropped by the last runUnits call because of cexGrace.
 var cutAfterCex int
+
+// knownFingerprints: fingerprints of the listed known findings of the property being checked.
+var knownFingerprints = map[string]bool{}
 
 func runCheck(prop, tier string) int {
 	start := time.Now()
@@ -377,6 +386,12 @@ func runCheck(prop, tier string) int {
 		}
 	}
 
+	knownFingerprints = map[string]bool{}
+	for _, k := range loadKnownFindings().Findings {
+		if k.Property == prop {
+			knownFingerprints[k.Fingerprint] = true
+		}
+	}
 	results, solverStats, funcSteps, stubs, skippedUnits := runUnits(sh, spec, units, solverKind, timeoutMs, maxSteps, maxPaths, deadline)
 	cutItems := cutAfterCex
 
